@@ -20,25 +20,26 @@ import time
 HERE = os.path.dirname(os.path.dirname(os.path.abspath(__file__)))
 
 FILE_PROPS = [
-    ('boc/cell.py', 'C01 C03 C05 C07 C08 C11 C19'),
-    ('boc/exotic.py', 'C01 C03 C05 C11 C19'),
-    ('boc/tvm_bitarray.py', 'C01 C06 C07 C08'),
-    ('boc/builder.py', 'C01 C06 C07 C08 C09 C17'),
-    ('boc/slice.py', 'C01 C06 C07 C08 C09 C17'),
-    ('boc/deserialize.py', 'C03 C05 C08 C19'),
-    ('boc/address.py', 'C13 C06 C09'),
-    ('boc/hashmap', 'C09 C08 C19 C11'),
-    ('boc/utils.py', 'C05 C13 C03'),
+    ('boc/cell.py', 'C01 C03 C08 C19'),
+    ('boc/exotic.py', 'C01 C11 C05'),
+    ('boc/tvm_bitarray.py', 'C07 C06 C08'),
+    ('boc/builder.py', 'C06 C07 C08'),
+    ('boc/slice.py', 'C06 C07 C08'),
+    ('boc/deserialize.py', 'C05 C03 C19'),
+    ('boc/address.py', 'C13 C06'),
+    ('boc/hashmap', 'C09 C19'),
+    ('boc/utils.py', 'C05'),
     ('boc/dict', 'C09'),
     ('proof/', 'C11 C12'),
-    ('crypto/', 'C20 C12 C13'),
-    ('tl/', 'C14 C19 C20'),
+    ('crypto/crc', 'C13 C05'),
+    ('crypto/', 'C20 C12'),
+    ('tl/', 'C14 C19'),
     ('tlb/vm_stack.py', 'C17 C08'),
-    ('tlb/account.py', 'C11 C08'),
-    ('tlb/block.py', 'C11 C08'),
-    ('tlb/config.py', 'C12 C11'),
+    ('tlb/account.py', 'C11'),
+    ('tlb/block.py', 'C11'),
+    ('tlb/config.py', 'C12'),
     ('tlb/transaction.py', 'C08'),
-    ('tlb/', 'C11 C08'),
+    ('tlb/', 'C11'),
 ]
 
 
